@@ -6407,12 +6407,22 @@ fn eval_expr(
                 env.push_expr_to_eval(ExpressionState::NotEvaluated, Rc::clone(scrutinee));
             }
             ExpressionState::PartiallyEvaluated(_) => {
+                // eval_match_cases pops the scrutinee. Remember it, so
+                // we can put it back if no case can be entered.
+                let scrutinee_value = env.current_frame().evalled_values.last().cloned();
+
                 env.push_expr_to_eval(
                     ExpressionState::EvaluatedSubexpressions,
                     Rc::clone(&outer_expr),
                 );
-                eval_match_cases(env, expr_value_is_used, &scrutinee.position, cases)
-                    .map_err(|e| (RestoreValues(vec![]), e))?;
+                if let Err(e) =
+                    eval_match_cases(env, expr_value_is_used, &scrutinee.position, cases)
+                {
+                    // Undo the push above and restore the scrutinee,
+                    // so that resuming re-runs this match.
+                    env.current_frame_mut().exprs_to_eval.pop();
+                    return Err((RestoreValues(scrutinee_value.into_iter().collect()), e));
+                }
             }
             ExpressionState::EvaluatedSubexpressions => {
                 env.current_frame_mut().bindings.pop_block();
